@@ -18,7 +18,7 @@ None == "none"
 \*       over (index of the challenge of connection c the response was computed over, 0 = none),
 \*       out  [got, success, need, newid (identity issued, or "none"), nonce (index of the challenge
 \*             carried by the response, 0 = none)],
-\*       post [conns: c -> [authd, cid], lookup: X -> connection name or "none"]
+\*       post [conns: c -> [authd, cid, rawcid (identity the connection object carries, authenticated or not)], lookup: X -> connection name or "none"]
 \*       newban ("temp" | "perm": the protector's own table shows a ban of c's address made on this message - accumulated
 \*             failures - that outlasts the trace / has no expiry date; "none" otherwise)
 \*  Env: k ("Ban": address of c banned through the protector from now on (how = "temp": outlasts the trace, "perm": no
@@ -96,8 +96,12 @@ TrMsg ==
          \* ... and made it the control channel of the client it now claims to be
          v7  == IF flip /\ \E X \in chg : X # PreCid(e.c) /\ e.post.lookup[X] = e.c
                 THEN {V("ControlChannelTakenOver", MsgShape(e))} ELSE {}
+         \* a connection that is not authenticated carries an identity (what GetClientID / GetClientIDByConnectionID hand to
+         \* the consumers that take "client id # 0" for "authenticated") nobody proved on it
+         v8  == IF \E d \in cs : ~e.post.conns[d].authd /\ e.post.conns[d].rawcid # None /\ <<d, e.post.conns[d].rawcid>> \notin pv
+                THEN {V("IdentityWithoutProof", MsgShape(e))} ELSE {}
          \* a clause is reported once per trace, with the detail of the message at which it was first violated
-         new == {v \in v1 \cup v2 \cup v3 \cup v4 \cup v5 \cup v6 \cup v7 : v.c \notin {w.c : w \in viol}}
+         new == {v \in v1 \cup v2 \cup v3 \cup v4 \cup v5 \cup v6 \cup v7 \cup v8 : v.c \notin {w.c : w \in viol}}
      IN /\ viol' = viol \cup new
         /\ proved' = pv
         /\ known' = IF e.out.newid # None THEN known \cup {e.out.newid} ELSE known
